@@ -295,6 +295,10 @@ def fresh_state():
         tmo.Stream._flow_cache.clear()
     except AttributeError:
         pass
+    # class-level solver settings a case may have changed (C02 draws Mixture.maxiter)
+    m = sys.modules.get('thermosteam.mixture.mixture')
+    if m is not None:
+        m.Mixture.maxiter = 20; m.Mixture.T_tol = 1e-6
     try:
         network.disjunctions.clear()
     except AttributeError:
